@@ -392,7 +392,8 @@ var _ raftpb.Entry
 // ---------------------------------------------------------------------------------------------
 // C06: opening and deleting a group. Opening seeds the log with the dummy entry (index 0, term 0: the reference storage's
 // ents[0]) only when the first-index lookup found nothing under the group's prefix - a log that holds anything is never reset
-// by a reopen, and a read error ends the process instead of wiping the group. Deleting a group wipes every entry key (scan
+// by a reopen, and a read error ends the process instead of wiping the group. Deleting a group (and re-seeding: a deleted
+// store is left as a fresh one) wipes every entry key (scan
 // from index 0), its hard state and its snapshot (in any order), drops the cache, and goes to disk in one flush; the seed
 // entries of a reset are queued after the wipe of the entry keys (a batch applies in order), each under the key of its own index.
 //@ func (*storage/wal.badgerWAL).reset
@@ -451,13 +452,16 @@ var _ raftpb.Entry
 //@ invariant [C06 seeded-so-far] written == rangeindex + 1 && hsDeleted == 1 && ssDeleted == 1 && wiped == 1 && flushed == 0
 //@ invariant [same-wal] this.db != nil && theBatch != nil
 
+// ("deleting a group leaves a later store for the same group id indistinguishable from a fresh one": the partition keeps
+// this very store object and loads the group again when its node returns to the replica set, so the deleted store itself has
+// to be what NewBadgerWAL leaves for an empty group - the dummy entry and nothing else)
 //@ func (*storage/wal.badgerWAL).DeleteGroup
-//@ props C06
+//@ props C06 C14
 //@ safety UNCLAIMED
 //@ ghost resets int = 0
 //@ ghost resetErr error = nil
 //@ at call badgerWAL).reset
-//@ requires [C06 nothing-is-seeded-into-a-deleted-group] $arg0 == this && len($arg1) == 0 && resets == 0
+//@ requires [C06 C14 left-as-a-fresh-store] $arg0 == this && resets == 0 && len($arg1) == 1 && $arg1[0].Index == 0 && $arg1[0].Term == 0 && len($arg1[0].Data) == 0
 //@ set resets = 1
 //@ set resetErr = $ret0
 //@ end
